@@ -216,20 +216,24 @@ fn corr_ovl(r: &mut Rng, nmax: usize, out: &mut Vec<String>) {
 fn corr_ft<B: Fld>(r: &mut Rng, nmax: usize, out: &mut Vec<String>) {
     for n in lengths(nmax) {
         let g: B = root(n);
-        let dom: Vec<B> = (0..n).map(|i| g.exp((i as u32).into())).collect();
         let kmax = if cfg!(debug_assertions) { n + 1 } else { n };
-        // all counts for n <= 64; for longer traces the counts the context accepts plus the boundary ones
+        // structure (numerator, exemption points, degree) for every count 0..=n+1; for longer traces the counts the
+        // context accepts plus the boundary ones.  Evaluations at the two boundary steps, step 0 and a random point
+        // for the counts 0, 1, 2, n/2 + 1 (the model's field arithmetic on inductive integers is slow).
         let ks: Vec<usize> = if n <= 64 { (0..=kmax).collect() } else { (0..=n / 2 + 2).chain([n - 1, n]).chain(if kmax > n { vec![n + 1] } else { vec![] }).collect() };
         for k in ks {
-            let xs: Vec<B> = (0..3).map(|_| rand_elem(r)).collect();
+            let mut xs: Vec<B> = vec![];
+            if k <= 2 || k == n / 2 + 1 || k == n {
+                if k < n { xs.push(g.exp(((n - k - 1) as u32).into())); }
+                if k > 0 { xs.push(g.exp(((n - k) as u32).into())); }
+                xs.push(B::ONE);
+                xs.push(rand_elem(r));
+            }
             let res = catch(AssertUnwindSafe(|| {
                 let d = ConstraintDivisor::<B>::from_transition(n, k);
                 let deg = catch(AssertUnwindSafe(|| d.degree())).map(|x| format!("{:x}", x)).unwrap_or_else(|_| "panic".into());
-                format!("{} deg={} exdom={} evdom={} v={} xv={}", show_divisor(&d), deg,
-                    bits(dom.iter().map(|&x| d.evaluate_exemptions_at(x) == B::ZERO)),
-                    bits(dom.iter().map(|&x| d.evaluate_at(x) == B::ZERO)),
-                    xs.iter().map(|&x| hx(d.evaluate_at(x))).collect::<Vec<_>>().join(","),
-                    xs.iter().map(|&x| hx(d.evaluate_exemptions_at(x))).collect::<Vec<_>>().join(","))
+                format!("{} deg={} ev={}", show_divisor(&d), deg,
+                    if xs.is_empty() { "-".to_string() } else { xs.iter().map(|&x| format!("{}/{}", hx(d.evaluate_at(x)), hx(d.evaluate_exemptions_at(x)))).collect::<Vec<_>>().join(",") })
             })).unwrap_or_else(|_| "panic".into());
             out.push(format!("ft {} {:x} {:x} {} {} => {}", B::NAME, n, k, hx(g), xs.iter().map(|&x| hx(x)).collect::<Vec<_>>().join(" "), res));
         }
@@ -239,7 +243,6 @@ fn corr_ft<B: Fld>(r: &mut Rng, nmax: usize, out: &mut Vec<String>) {
 fn corr_fa<B: Fld>(r: &mut Rng, nmax: usize, out: &mut Vec<String>) {
     for n in lengths(nmax) {
         let g: B = root(n);
-        let dom: Vec<B> = (0..n).map(|i| g.exp((i as u32).into())).collect();
         let mut specs = enum_valid(n, &[0]);
         // assertions that do not fit n: from_assertion must panic
         specs.push(Spec { kind: 's', col: 0, first: n, stride: 0, nvals: 1 });
@@ -248,13 +251,18 @@ fn corr_fa<B: Fld>(r: &mut Rng, nmax: usize, out: &mut Vec<String>) {
         specs.push(Spec { kind: 'q', col: 0, first: 1, stride: 2, nvals: n / 4 });
         specs.push(Spec { kind: 'q', col: 0, first: 3, stride: 4, nvals: 1 });
         for s in specs {
-            let xs: Vec<B> = (0..2).map(|_| rand_elem(r)).collect();
+            // structure and evaluations (a named step, its successor, a random point) for every assertion
+            let mut xs: Vec<B> = vec![];
+            {
+                xs.push(g.exp(((s.first % n) as u32).into()));
+                xs.push(g.exp((((s.first + 1) % n) as u32).into()));
+                xs.push(rand_elem(r));
+            }
             let res = catch(AssertUnwindSafe(|| {
                 let a = s.build(&|_| B::ONE);
                 let d = ConstraintDivisor::<B>::from_assertion(&a, n);
-                format!("{} deg={:x} evdom={} v={}", show_divisor(&d), d.degree(),
-                    bits(dom.iter().map(|&x| d.evaluate_at(x) == B::ZERO)),
-                    xs.iter().map(|&x| hx(d.evaluate_at(x))).collect::<Vec<_>>().join(","))
+                format!("{} deg={:x} ev={}", show_divisor(&d), d.degree(),
+                    if xs.is_empty() { "-".to_string() } else { xs.iter().map(|&x| hx(d.evaluate_at(x))).collect::<Vec<_>>().join(",") })
             })).unwrap_or_else(|_| "panic".into());
             out.push(format!("fa {} {:x} {} {} {} => {}", B::NAME, n, s.show(), hx(g), xs.iter().map(|&x| hx(x)).collect::<Vec<_>>().join(" "), res));
         }
@@ -319,9 +327,13 @@ fn corr_prep<B: Fld>(r: &mut Rng, nmax: usize, out: &mut Vec<String>) {
     // n = 8: every ordered pair of valid assertions over two columns
     let v8 = enum_valid(8, &[0, 1]);
     for a in &v8 { for b in &v8 { out.push(prep_case::<B>(8, 2, &[*a, *b])); } }
+    corr_prep_rand::<B>(r, nmax, out);
+}
+
+fn corr_prep_rand<B: Fld>(r: &mut Rng, nmax: usize, out: &mut Vec<String>) {
     for n in lengths(nmax) {
         let v = enum_valid(n, &[0, 1, 2]);
-        let cnt = if n == 8 { 600 } else { 1500 };
+        let cnt = if n == 8 { 300 } else { 250 };
         for _ in 0..cnt {
             let len = 1 + r.below(6) as usize;
             let mut list: Vec<Spec> = (0..len).map(|_| *r.pick(&v)).collect();
@@ -525,16 +537,47 @@ fn falsify_field<B: Fld>(r: &mut Rng, nmax: usize, t: &mut Tally) {
                 let asserts: Vec<Assertion<B>> = list.iter().map(|s| s.build(&|_| one)).collect();
                 let cc = vec![one; list.len()];
                 let bcs = BoundaryConstraints::<B>::new(&ctx, asserts, vec![], &cc);
-                bcs.main_constraints().iter().map(|g| g.constraints().len()).sum::<usize>()
+                // every constraint sits in a group whose divisor vanishes exactly on the steps of an assertion of its column
+                let mut misplaced = 0usize;
+                for grp in bcs.main_constraints() {
+                    let zs: Vec<usize> = (0..n).filter(|&i| grp.divisor().evaluate_at(B::from_u128(dom[i])) == B::ZERO).collect();
+                    for c in grp.constraints() {
+                        if !list.iter().any(|s| s.col == c.column() && s.step_set(n) == zs) { misplaced += 1; }
+                    }
+                }
+                if misplaced > 0 { usize::MAX } else { bcs.main_constraints().iter().map(|g| g.constraints().len()).sum::<usize>() }
             }));
             match (ok, got) {
                 (true, Ok(c)) if c == list.len() => {}
                 (false, Err(_)) => {}
+                (true, Ok(usize::MAX)) => t.fail("a constraint is grouped under a divisor that does not vanish exactly on its assertion's steps", format!("{} n={} {:?}", B::NAME, n, list), "divisor zero set = named steps".into(), "mismatch".into()),
                 (true, Ok(c)) => t.fail("constraints lost by prepare/group", format!("{} n={} {:?}", B::NAME, n, list), format!("{}", list.len()), format!("{}", c)),
                 (true, Err(m)) => t.fail("disjoint valid assertions refused", format!("{} n={} {:?}", B::NAME, n, list), "accepted".into(), m),
                 (false, Ok(_)) => t.fail("overlapping or ill-fitting assertions accepted", format!("{} n={} width={} {:?}", B::NAME, n, width, list), "panic".into(), "accepted".into()),
             }
         }
+    }
+}
+
+/// trace lengths >= 2^32 (possible on f128 / f62, two-adicity 40 / 39): the exponent of the numerator must not be truncated
+fn falsify_long_traces(t: &mut Tally) {
+    type B = f128::BaseElement;
+    let p = B::P;
+    for (log_n, x) in [(32u32, 12345u128), (33, 0xdead_beef_0000_0001), (31, 777)] {
+        let n = 1usize << log_n;
+        let g = B::get_root_of_unity(log_n).to_u128();
+        t.evals += 2;
+        // transition divisor with one exemption: D(x) * (x - g^(n-1)) = x^n - 1
+        let d = ConstraintDivisor::<B>::from_transition(n, 1);
+        let got = mulmod(d.evaluate_at(B::from_u128(x)).to_u128(), submod(x, powmod(g, (n - 1) as u128, p), p), p);
+        let want = submod(powmod(x, n as u128, p), 1, p);
+        if got != want { t.fail("transition divisor of a long trace is not (x^n - 1)/(x - g^(n-1))", format!("f128 n=2^{} k=1 x={:x}", log_n, x), format!("{:x}", want), format!("{:x}", got)); }
+        // periodic assertion with stride 2: D(x) = x^(n/2) - 1
+        let a = Assertion::periodic(0, 0, 2, B::ONE);
+        let d = ConstraintDivisor::<B>::from_assertion(&a, n);
+        let got = d.evaluate_at(B::from_u128(x)).to_u128();
+        let want = submod(powmod(x, (n / 2) as u128, p), 1, p);
+        if got != want { t.fail("assertion divisor of a long trace is not x^(n/stride) - 1", format!("f128 n=2^{} periodic stride 2 x={:x}", log_n, x), format!("{:x}", want), format!("{:x}", got)); }
     }
 }
 
@@ -595,7 +638,7 @@ fn main() {
                 "ft" => { corr_ft::<f64::BaseElement>(&mut r, nmax, &mut out); corr_ft::<f62::BaseElement>(&mut r, nmax, &mut out); corr_ft::<f128::BaseElement>(&mut r, nmax, &mut out); }
                 "fa" => { corr_fa::<f64::BaseElement>(&mut r, nmax, &mut out); corr_fa::<f62::BaseElement>(&mut r, nmax, &mut out); corr_fa::<f128::BaseElement>(&mut r, nmax, &mut out); }
                 "bc" => { corr_bc::<f64::BaseElement>(&mut r, nmax, &mut out); corr_bc::<f62::BaseElement>(&mut r, nmax, &mut out); corr_bc::<f128::BaseElement>(&mut r, nmax, &mut out); }
-                "prep" => { corr_prep::<f64::BaseElement>(&mut r, nmax, &mut out); corr_prep::<f128::BaseElement>(&mut r, nmax.min(32), &mut out); }
+                "prep" => { corr_prep::<f64::BaseElement>(&mut r, nmax, &mut out); corr_prep_rand::<f62::BaseElement>(&mut r, nmax.min(32), &mut out); corr_prep_rand::<f128::BaseElement>(&mut r, nmax.min(16), &mut out); }
                 "ex" => corr_ex(nmax, &mut out),
                 g => { eprintln!("unknown group {}", g); std::process::exit(2); }
             }
@@ -606,10 +649,22 @@ fn main() {
         Some("falsify") => {
             let mut t = Tally { evals: 0, fails: 0 };
             falsify_int(nmax, &mut t);
+            falsify_long_traces(&mut t);
             falsify_field::<f64::BaseElement>(&mut r, nmax, &mut t);
             falsify_field::<f62::BaseElement>(&mut r, nmax, &mut t);
             falsify_field::<f128::BaseElement>(&mut r, nmax, &mut t);
             println!("evaluations={} failures={}", t.evals, t.fails);
+        }
+        Some("probe") => {
+            // outside the property's quantifier (n <= 256): `*degree as u32` in evaluate_at truncates exponents >= 2^32
+            type B = f128::BaseElement;
+            let n = 1usize << 32;
+            let d = ConstraintDivisor::<B>::from_transition(n, 1);
+            let x = B::new(12345);
+            println!("from_transition(2^32,1).evaluate_at(12345) = {} ; x^(2^32)-1 = {}", hx(d.evaluate_at(x)), hx(x.exp((n as u128).into()) - B::ONE));
+            let a = Assertion::periodic(0, 0, 2, B::ONE);
+            let d = ConstraintDivisor::<B>::from_assertion(&a, 1usize << 33);
+            println!("from_assertion(periodic stride 2, n=2^33): {} evaluate_at(12345) = {}", show_divisor(&d), hx(d.evaluate_at(x)));
         }
         _ => { eprintln!("usage: c16 corr <seed> <nmax> <group> | c16 falsify <seed> <nmax>"); std::process::exit(2); }
     }
